@@ -138,10 +138,11 @@ CHECKS = {
                     "with the reference model: recipients, 1..k copies for k matching subscriptions, QoS min(publish, granted) assignable to distinct subscriptions, topic and payload byte-identical, "
                     "nothing for non-recipients. Payload sizes include 0, ~4 KiB, just below and exactly at the packet limit. Sampling."),
         level_note=("Trusted: harness/ref/match, the model in harness/p_broker, harness/ref/codec (strict parsing of every received byte), the barrier argument (fan-out is synchronous in the publisher's "
-                    "processor). Sequential plans only in this unit; interleavings of clients are covered by C17/C18."),
+                    "processor). Unit concurrent runs every client's operation list in its own goroutine and judges each (publish, client) pair with the interval oracle: a subscription is definitely held if its SUBACK was received before the PUBLISH was sent and its UNSUBSCRIBE was sent after the publisher's barrier returned, definitely not held if its UNSUBACK preceded the send or its SUBSCRIBE followed the barrier, otherwise either outcome is accepted (logical clock on the harness side)."),
         rule=("rapid-generated plans (8-40 ops); non-trivial = some publish had >= 1 recipient while >= 1 connected client was not a recipient; distinct = FNV-64 of the plan JSON"),
         assumptions=["topics and filters never start with '$'", "one live connection per client identifier", "sequential execution with exact cuts"],
-        units=[dict(name="sequential", test="TestC01", checks=(3000, 30000), shards=(4, 14), timeout=(240, 3000))]),
+        units=[dict(name="sequential", test="TestC01", checks=(3000, 30000), shards=(4, 14), timeout=(240, 3000)),
+               dict(name="concurrent", test="TestC01Concurrent", checks=(1200, 12000), shards=(4, 14), timeout=(240, 3000))]),
 
     "C02": dict(
         pkg="p_broker", level="exploration",
